@@ -79,9 +79,11 @@ def u : Float := Float.ofBits 0x3CA0000000000000   -- 2⁻⁵³
     bandwidths differed by one ulp, the ratios by 4.5e-13 relative, the old allowance was 8.1e-14.) -/
 def tailAmp : Float := 746 * 16 * u
 
-/-- number of distinct bit patterns -/
+/-- number of distinct bit patterns, capped at 2 (all callers ask `< 2` / `≥ 2`); linear time -/
 def distinctCount (l : List Float) : Nat :=
-  (l.map (·.toBits.toNat)).eraseDups.length
+  match l with
+  | [] => 0
+  | x :: xs => if xs.all (fun y => y.toBits == x.toBits) then 1 else 2
 
 def absF (x : Float) : Float := x.abs
 
